@@ -652,6 +652,28 @@ pub fn run(s: &Scn, st: &mut Stats, check_structure: bool) -> Verdict {
         };
         return run_generic(s, st, check_structure, k, &|known| crate::ops_hash::varsha::VarShaCircuit { case: case.clone(), known });
     }
+    if case.op.starts_with("hr.") {
+        // the size depends on the number of blocks only
+        let key = format!("hr.ripemd160/{}", (case.p[0] + 9).div_ceil(64));
+        let cached = k_cache().lock().unwrap().get(&key).copied();
+        let k = match cached {
+            Some(k) => k,
+            None => {
+                let c0 = crate::ops_hash::rip::RipCircuit { case: case.clone(), known: true };
+                let mut found = None;
+                for kk in 12..=16u32 {
+                    if let Ok(Ok(())) = catch(|| rayon::sim::isolated(1, || midnight_proofs::dev::MockProver::run(kk, &c0, vec![vec![], vec![]]).map(|_| ()))) {
+                        found = Some(kk);
+                        break;
+                    }
+                }
+                let Some(k) = found else { return Verdict::Harness("hr.ripemd160: no k <= 16 fits".into()) };
+                k_cache().lock().unwrap().insert(key, k);
+                k
+            }
+        };
+        return run_generic(s, st, check_structure, k, &|known| crate::ops_hash::rip::RipCircuit { case: case.clone(), known });
+    }
     if case.op.starts_with("sp.") {
         let c0 = crate::ops_hash::sponge::SpCircuit { case: case.clone(), known: true };
         let mut k = None;
@@ -784,6 +806,28 @@ fn run_generic<C: midnight_proofs::plonk::Circuit<Fq>>(s: &Scn, st: &mut Stats, 
     };
     // large circuits (foreign-curve scalar multiplications, hashes): a few plans per run
     let mut plans = plans;
+    // variable-length hashing: adversarial content of the unused tail of the buffer
+    if case.op.starts_with("vh.") && plans.is_empty() && case.p.get(1).copied().unwrap_or(0) > 128 {
+        let f = Fq::from(case.p[1]);
+        let cand: Vec<&(usize, usize, Fq)> = honest.trace.iter().filter(|t| t.2 == f).collect();
+        let mut rng = Prng::new(s.fault_seed, "filler");
+        if !cand.is_empty() {
+            for _ in 0..if s.n_plans == 0 { 12 } else { 4 } {
+                let n = *rng.pick(&[1usize, 1, 2, 4, 8, 64]);
+                let mut plan: Vec<CellEdit> = vec![];
+                for _ in 0..n {
+                    let t = cand[rng.usize(cand.len())];
+                    let g = *rng.pick(&[0u64, 1, 0x80, 0xff, 0x7f]);
+                    let g = if Fq::from(g) == f { 0x55 } else { g };
+                    if !plan.iter().any(|e| e.col == t.0 && e.ord == t.1) {
+                        plan.push(CellEdit { col: t.0, ord: t.1, val: FaultVal::Set(Fe(Fq::from(g))) });
+                    }
+                }
+                plans.push(plan);
+            }
+            st.inc("filler_plans");
+        }
+    }
     if k >= 14 && s.only.is_none() {
         plans.truncate(if k >= 16 { 2 } else { 4 });
     }
